@@ -173,7 +173,7 @@ Lemma idle_reg_agree : forall d0 d id k,
     ((exists rg, nget (d_regs d) id = Some rg /\ reg_kind rg = k) <->
      (exists rg, nget (d_regs d0) id = Some rg /\ reg_kind rg = k)).
 Proof.
-  intros d0 d id k I [A B]. split.
+  intros d0 d id k I [A [B _]]. split.
   - intros (rg & Hr & Hk).
     assert (Hin : In meta_id (reg_callees rg)) by (rewrite (I id rg Hr); now left).
     pose proof (B id rg Hr Hin) as H0. destruct (nget (d_regs d0) id) as [rg0|] eqn:E0; [|congruence].
